@@ -139,6 +139,14 @@ def check_abstractions(case):
         d = float(np.max(np.abs(a2 - a1[..., None])))
         if d > tol(case, a2, a1):
             bad.append("axisymmetric data: 2D differs from 1D on some ray by %.3e" % d)
+        # the same pair at a slice height that is no axial grid plane (9/32 of the height; the wall data vary with z)
+        c2 = copy.deepcopy(c2)
+        c2.plane = 0.28125
+        a2 = solve(c2)
+        a1 = solve(lower(c2, 1))
+        d = float(np.max(np.abs(a2 - a1[..., None])))
+        if d > tol(case, a2, a1):
+            bad.append("axisymmetric data, slice at 9/32 of the height: 2D differs from 1D on some ray by %.3e" % d)
     return bad
 
 
